@@ -151,11 +151,17 @@ func VerifC12Delivery(nsubs, nev, mode int) {
 	writers := make([]*zzSubWriter, nsubs)
 	ids := make([]SubscriptionIdentifier, nsubs)
 	var wg sync.WaitGroup
+	var cancel0 context.CancelFunc
 
 	for i := 0; i < nsubs; i++ {
 		writers[i] = &zzSubWriter{id: i}
 		ids[i] = SubscriptionIdentifier{ConnectionID: ConnectionID(i + 1), SubscriptionID: 1}
-		ctx := NewContext(context.Background())
+		reqCtx := context.Background()
+		if mode&8 != 0 && i == 0 {
+			// subscriber 0 (the creator of the shared trigger) leaves by a client disconnect: its request context ends
+			reqCtx, cancel0 = context.WithCancel(context.Background())
+		}
+		ctx := NewContext(reqCtx)
 		err := r.AsyncResolveGraphQLSubscription(ctx, sub, writers[i], ids[i])
 		verifAssert(err == nil, "subscribe succeeds")
 		r.mu.Lock()
@@ -195,6 +201,15 @@ func VerifC12Delivery(nsubs, nev, mode int) {
 			_ = r.UnsubscribeSubscription(ids[0])
 		}()
 	}
+	if mode&8 != 0 {
+		wg.Add(1)
+		go func() {
+			defer wg.Done()
+			defer verifTag(30)()
+			verifYield()
+			cancel0()
+		}()
+	}
 	wg.Wait()
 	verifQuiesce()
 
@@ -206,7 +221,7 @@ func VerifC12Delivery(nsubs, nev, mode int) {
 			want := `{"data":{"n":` + string([]byte{byte('0' + k + 1)}) + `}}`
 			verifAssert(string(m) == want, "messages are the events in source order")
 		}
-		left := mode&4 != 0 && i == 0
+		left := mode&(4|8) != 0 && i == 0
 		if !left {
 			verifAssert(len(w.msgs) == nev, "a subscriber that stays receives every event")
 		}
